@@ -16,10 +16,10 @@ func init() {
 		DesignRef: "DESIGN.md §5 C14",
 		Level: "Decides, for every record kind, that every sequence of primitive wire tokens (tag byte by constant name, fixed 32/64-bit, unsigned/signed varint, length-prefixed bytes) the encoder can emit is a sequence its decoder reads completely and accepts, including the dispatch on the record type byte and on the start-timestamp marker byte; " +
 			"that every record type is named and recognised; that delta-encoded fields use the same base (first or previous element) on both sides; and that the exponential/custom-bucket split hands back exactly the histograms it skipped.",
-		Note:     "Trusted: go/packages, go/types; engine checker/eng/codec.go (abstraction of data-dependent guards enlarges both languages: necessary, not sufficient).",
-		Covers:   "Encoder.{Series,Metadata,Samples,Tombstones,Exemplars,MmapMarkers,HistogramSamples,CustomBucketsHistogramSamples,FloatHistogramSamples,CustomBucketsFloatHistogramSamples} against the matching Decoder methods, with EncodeLabels/DecodeLabels, EncodeHistogram/DecodeHistogram, EncodeFloatHistogram/DecodeFloatHistogram, writeSTMarker/readSTMarker inlined.",
-		NotCover: "the values carried by the tokens (delta arithmetic, float bit patterns, label contents).",
-		Run:      runC14,
+		Note:           "Trusted: go/packages, go/types; engine checker/eng/codec.go (abstraction of data-dependent guards enlarges both languages: necessary, not sufficient).",
+		Covers:         "Encoder.{Series,Metadata,Samples,Tombstones,Exemplars,MmapMarkers,HistogramSamples,CustomBucketsHistogramSamples,FloatHistogramSamples,CustomBucketsFloatHistogramSamples} against the matching Decoder methods, with EncodeLabels/DecodeLabels, EncodeHistogram/DecodeHistogram, EncodeFloatHistogram/DecodeFloatHistogram, writeSTMarker/readSTMarker inlined.",
+		NotCover:       "the values carried by the tokens (delta arithmetic, float bit patterns, label contents).",
+		Run:            runC14,
 		MinObligations: 10,
 	})
 }
